@@ -1,7 +1,7 @@
 (* C12 — A fresh chunk always fits the request that caused it; sizes never wrap.
    Only pinned statements, `exact`, and Print Assumptions. *)
-From Coq Require Import ZArith.
-From BS Require Import Word BumpSpec ChunkSpec ChunkRefine Arena AllocRefine.
+From Coq Require Import ZArith List.
+From BS Require Import Word BumpSpec ChunkSpec ChunkRefine Arena AllocRefine ArenaReserve.
 From BS.gen Require AllocSites.
 From BS.gen Require Import SizeCfg.
 Open Scope Z_scope.
@@ -90,6 +90,18 @@ Theorem C12_model_chunk_size_in_those_terms :
    if IMAX - (ha c - 1) <? n then None else Some n).
 Proof. exact model_new_chunk_size. Qed.
 
+(* reserve: the walk over the chunk list as the code writes it (checked_sub of what the current chunk has left, then of
+   every later chunk's capacity; the shape of the loop is checked against the source by tools/allocsites.py) asks for
+   a new chunk exactly when the request exceeds the sum, and then for exactly the difference - the closed form the
+   arena model uses *)
+Theorem C12_reserve_walk_closed_form :
+  forall n remaining_cur caps,
+  0 <= n -> 0 <= remaining_cur -> Forall (fun x => 0 <= x) caps ->
+  reserve_walk n remaining_cur caps =
+  let avail := remaining_cur + sumZ caps in
+  if n <=? avail then None else Some (n - avail).
+Proof. exact reserve_walk_closed_form. Qed.
+
 Print Assumptions C12_calc_hint_refines.
 Print Assumptions C12_calc_size_refines.
 Print Assumptions C12_align_size_refines.
@@ -100,3 +112,4 @@ Print Assumptions C12_fresh_chunk_fits.
 Print Assumptions C12_source_grow_size_is_the_models.
 Print Assumptions C12_source_hint_composition_is_the_models.
 Print Assumptions C12_model_chunk_size_in_those_terms.
+Print Assumptions C12_reserve_walk_closed_form.
